@@ -84,6 +84,12 @@ pub struct Hist {
     pub salt: u32,
     /// per client: classes of later ops seen (for C07 labels)
     pub probe_seq: u32,
+    /// some snapshot was stamped in the future (then the wall clock is not stepped any more:
+    /// whole-day arithmetic on ages of either sign is not worth the trouble)
+    pub future_stamps: bool,
+    /// this history may step the process's wall clock (only where one history at a time runs in
+    /// the process: twins and two-run comparisons share the one clock and leave it alone)
+    pub clock_steps: bool,
 }
 
 fn err<T>(m: String) -> Result<T, Fail> {
@@ -128,6 +134,8 @@ impl Hist {
             or,
             salt: case.salt,
             probe_seq: 0,
+            future_stamps: false,
+            clock_steps: false,
         }
     }
 
@@ -156,6 +164,26 @@ impl Hist {
             IdRef::SnapVersion(k) => cl(k).snap.map(|s| s.version).unwrap_or(Uuid::nil()),
             IdRef::Fresh(l) => crate::case::fresh_uuid(*l),
             IdRef::Literal(u) => *u,
+            IdRef::OfClients(a, b, mode) => {
+                let ca = *self.clients[(*a as usize) % self.clients.len()].as_bytes();
+                let cb = *self.clients[(*b as usize) % self.clients.len()].as_bytes();
+                let mut out = ca;
+                match mode % 4 {
+                    0 => {}
+                    1 => {
+                        for i in 0..16 {
+                            out[i] = ca[i] ^ cb[i];
+                        }
+                    }
+                    2 => {
+                        for x in out.iter_mut() {
+                            *x = !*x;
+                        }
+                    }
+                    _ => out.reverse(),
+                }
+                Uuid::from_bytes(out)
+            }
             IdRef::Near(k, back, mode) => {
                 let base = self.resolve(&IdRef::Ancestor(*k, *back));
                 let mut b = *base.as_bytes();
@@ -258,6 +286,21 @@ impl Hist {
                     }
                     if age < 0 {
                         st.label("op:AgeSnapshot(stamped-in-the-future)");
+                        self.future_stamps = true;
+                    }
+                    // every third time (in-process servers only) the wall clock is stepped forward
+                    // by whole days on top - an NTP correction, a resumed VM: every stored snapshot
+                    // is that much older at once, whatever the process's monotonic clock says
+                    if self.clock_steps && self.drv.ext.is_none() && !self.future_stamps && (self.salt as usize + idx) % 3 == 0 {
+                        let j = [1i64, 2, 5][(self.salt as usize / 3 + idx) % 3];
+                        crate::clock::step(j * 86400);
+                        let ids: Vec<Uuid> = self.model.clients.keys().copied().collect();
+                        for id in ids {
+                            if let Some(s) = &mut self.model.client_mut(id).snap {
+                                s.days += j;
+                            }
+                        }
+                        st.label("op:AgeSnapshot(wall-clock-stepped-forward)");
                     }
                     if *days >= 60000 {
                         st.label("op:AgeSnapshot(calendar-landmark)");
@@ -841,6 +884,7 @@ pub fn later_class(s: Option<&Step>, op: &Op) -> &'static str {
 pub fn run_history(case: &Case, backend: Backend, via: Via, or: Oracles, st: &mut Stats) -> CheckResult {
     let t_start = std::time::Instant::now();
     let mut h = Hist::new(case, backend, via, or)?;
+    h.clock_steps = true;
     let n = case.ops.len();
     st.label(&format!("driver:{backend:?}/{via:?}"));
     for (idx, op) in case.ops.iter().enumerate() {
